@@ -149,3 +149,70 @@ pub fn prepare_file(case: &Case, data: &[u8]) -> Result<(Vec<u8>, Vec<(usize, us
     }
     Ok((file, spans))
 }
+
+/// Reach measure: what the stream a reader is about to see (or a writer produced) is made of.
+/// Counted as metrics ("struct.*"), never judged: LZMA2 chunk kinds by control-byte class
+/// (a class stuck at zero means no run exercises that reset level), XZ blocks per stream, filter
+/// ids, check types, LZIP members. `kind` is "lzma2", "xz", "lzip" or anything else (ignored).
+pub fn structure_reach(ctx: &mut Ctx, kind: &str, bytes: &[u8]) {
+    use simcore::parsers;
+    fn chunks(ctx: &mut Ctx, s: &[u8]) {
+        if let Ok((cs, _)) = parsers::lzma2_chunks(s) {
+            for (i, c) in cs.iter().enumerate() {
+                let class = match c.control {
+                    1 => "struct.lzma2.ctl01_stored_dict_reset",
+                    2 => "struct.lzma2.ctl02_stored",
+                    0x80..=0x9F => "struct.lzma2.ctl80_lzma_continue",
+                    0xA0..=0xBF => "struct.lzma2.ctlA0_state_reset",
+                    0xC0..=0xDF => "struct.lzma2.ctlC0_state_reset_props",
+                    _ => "struct.lzma2.ctlE0_all_reset",
+                };
+                ctx.metric(class, 1);
+                if i > 0 && c.dict_reset() {
+                    ctx.metric("struct.lzma2.dict_reset_not_first", 1);
+                }
+                if i > 0 && (0xC0..=0xDF).contains(&c.control) {
+                    ctx.metric("struct.lzma2.ctlC0_not_first", 1);
+                }
+                if c.is_lzma() && c.unpacked > (1 << 16) {
+                    ctx.metric("struct.lzma2.lzma_chunk_over_64k_unpacked", 1);
+                }
+            }
+        }
+    }
+    match kind {
+        "lzma2" => chunks(ctx, bytes),
+        "xz" => {
+            if let Ok(streams) = parsers::xz_file(bytes) {
+                ctx.metric(if streams.len() > 1 { "struct.xz.multi_stream_file" } else { "struct.xz.single_stream_file" }, 1);
+                for st in &streams {
+                    ctx.metric(match st.check { 0 => "struct.xz.check_none", 1 => "struct.xz.check_crc32", 4 => "struct.xz.check_crc64", 10 => "struct.xz.check_sha256", _ => "struct.xz.check_other" }, 1);
+                    ctx.metric(match st.blocks.len() { 0 => "struct.xz.stream_0_blocks", 1 => "struct.xz.stream_1_block", _ => "struct.xz.stream_many_blocks" }, 1);
+                    for b in &st.blocks {
+                        if b.filters.len() > 1 {
+                            ctx.metric("struct.xz.block_with_prefilter", 1);
+                        }
+                        if b.compressed_size_field.is_some() || b.uncompressed_size_field.is_some() {
+                            ctx.metric("struct.xz.block_header_with_sizes", 1);
+                        }
+                        if b.padding > 0 {
+                            ctx.metric("struct.xz.block_with_padding", 1);
+                        }
+                        if b.data_start + b.data_len <= bytes.len() {
+                            chunks(ctx, &bytes[b.data_start..b.data_start + b.data_len]);
+                        }
+                    }
+                }
+            }
+        }
+        "lzip" => {
+            if let Some(ms) = parsers::lzip_members(bytes) {
+                ctx.metric(match ms.len() { 0 => "struct.lzip.0_members", 1 => "struct.lzip.1_member", _ => "struct.lzip.many_members" }, 1);
+                if ms.iter().any(|m| m.data_size == 0) {
+                    ctx.metric("struct.lzip.empty_member", 1);
+                }
+            }
+        }
+        _ => {}
+    }
+}
